@@ -1,6 +1,7 @@
 """C09 — JitAllocator never hands out overlapping, misaligned or corrupted memory (DESIGN.md section 6, C09)."""
 import itertools
 import os
+import time
 from concurrent.futures import ThreadPoolExecutor
 
 import vlib
@@ -21,7 +22,16 @@ MANIFEST = {
             "memory is reused: no new block while a block of the serving pool has room, wherever the gap is (free_memory_reused); per-pool "
             "block count / reserved / used totals are exact (pool_totals_exact); at most one empty block per pool, none with immediate "
             "release, and a block is flagged empty iff it holds no span (retention_policy, empty_flag_iff_no_spans); unknown "
-            "blocks and stale spans are rejected without state change; reset leaves nothing accounted; is_initialized is true. The model is "
+            "blocks and stale spans are rejected without state change; reset leaves nothing accounted; is_initialized is true. "
+            "Props/C09Refine.lean adds, again for all histories and all constructor configurations: memory contents of a live span are "
+            "kept by every operation except the caller's own write to it, i.e. the fill/wipe of release, shrink, reset and alloc stay "
+            "inside the freed range (contents_kept); with kFillUnusedMemory every unused granule, in particular what release/shrink gave "
+            "back, carries the pattern (free_granules_filled, fill_after_release, fill_after_shrink); statistics() = block count, live "
+            "spans, sum of block sizes, live bytes + padding (stats_exact); the monitor Spec.monitor accepts every run of the model "
+            "(model_accepted_by_spec, a simulation proof Lemmas/JitAllocSim*.lean); with explicit rx/rw base addresses per block "
+            "(Layout, OS behaviour = hypothesis LayoutOK) distinct live spans are disjoint in the rx view, in the rw view and across "
+            "the views, and both addresses of a byte denote the same cell (rx_view_disjoint, rw_view_disjoint, views_never_cross, "
+            "views_alias_same_cell). The model is "
             "tied to the real code by running both on bounded-exhaustive and seeded random histories (all option sets, granularities, block "
             "sizes) comparing every answer, the statistics after every operation and the private block state; Spec/JitAlloc.lean "
             "(independent ghost-table monitor: disjointness, alignment, size, contents, fill pattern, query sweep, statistics, reusability, "
@@ -30,10 +40,11 @@ MANIFEST = {
             "the harness/driver/diff. OS behaviour is only tested (mmap/dual mapping give fresh page-aligned disjoint ranges, rw aliases rx; the "
             "harness checks both on every block), large pages are never granted in the sandbox, thread safety is C11. The RB tree lookup is "
             "modelled as lookup by block id (C18). Sizes near 2^64 (overflow exits) are not modelled. Memory is modelled per granule "
-            "(whole-granule writes only). Not proved (covered by the correspondence and the monitor only): memory contents / fill pattern, "
-            "the final summation of statistics() over the pools.",
+            "(whole-granule writes only). LayoutOK (mappings of block_size bytes, pairwise apart, rw = rx with single mapping) is an "
+            "assumption about mmap, checked by the harness on every block.",
 }
-MODS = ["AsmjitVerif.Props.C09"]
+MODS = ["AsmjitVerif.Props.C09", "AsmjitVerif.Props.C09Refine"]
+SHRINK_DEADLINE = [float("inf")]   # wall-clock limit for shrinking (set per run: the quick tier stays under ~3 min on failure paths too)
 
 OPT_DUAL, OPT_MULTI, OPT_FILL, OPT_IMM, OPT_NOPAD, OPT_LARGE, OPT_CUSTOM = 1, 2, 4, 8, 16, 32, 0x10000000
 # the 8 most different option sets (quick); thorough uses all 2^6 x custom pattern
@@ -255,9 +266,9 @@ def shrink_history(runner, hist, kind, key):
                 return True
         return False
 
-    if len(body) <= 12:          # already a minimal witness (corpus entries, bounded-exhaustive histories)
+    if len(body) <= 12 or time.time() > SHRINK_DEADLINE[0]:   # minimal already (corpus, bounded-exhaustive) / out of time budget
         return hist
-    small = vlib.ddmin(body, fails, max_tests=100)
+    small = vlib.ddmin(body, lambda c: time.time() < SHRINK_DEADLINE[0] and fails(c), max_tests=60)
     return [cfg] + small
 
 
@@ -268,7 +279,7 @@ def run_batch(runner, hists):
     pending = list(hists)
     impl_all, lines_all = [], []
     guard = 0
-    while pending and guard < 4:
+    while pending and guard < 3 and (guard == 0 or time.time() < SHRINK_DEADLINE[0]):   # the first run always happens; re-runs after a crash are capped
         guard += 1
         flat, owner = [], []
         for k, hst in enumerate(pending):
@@ -392,6 +403,8 @@ def run(res):
     import time as _t
     t0 = _t.time()
     vlib.log("[c09] proofs + builds done at %.0fs" % (t0 - res.t0))
+    # budget for crash re-runs and shrinking, counted from here (library / harness builds are cached in the steady state)
+    SHRINK_DEADLINE[0] = t0 + (150 if res.tier == "quick" else 1200)
 
     hists, nex, nrand = build_histories(res, rng)
     # corpus of past failures first
@@ -427,6 +440,8 @@ def run(res):
     for f, st, lines, impl, model in results:
         nontriv |= st["nontrivial"]
     state_ops = sum(v for k, v in answers.items() if k in ("alloc:ok", "release:ok", "shrink:ok", "wtrunc:ok", "reset:blocks"))
+    if nlines == 0 and not findings:
+        res.violation("no protocol line was executed (harness / driver produced nothing)", {}, found_input=False, key="empty-run")
     res.coverage["evaluations"] = nlines
     res.coverage["distinct_nontrivial"] = len(nontriv)
     res.coverage["state_changing_ops_accepted"] = state_ops
